@@ -357,8 +357,9 @@ static void do_verify(int mode, int argc, char** argv)
 	}
 	else if (!strcmp(k, "bashHashStepV"))
 	{
-		/* security level 128/192/256 from the tag length: len octets = l/4 */
-		size_t l = (len <= 32 ? 128 : len <= 48 ? 192 : 256);
+		/* security level 128/192/256 from the length of the full hash value (l/4 octets) */
+		size_t tl = (mode && argc > 6) ? strlen(argv[6]) / 2 : len;	/* length of the full hash value */
+		size_t l = (tl <= 32 ? 128 : tl <= 48 ? 192 : 256);
 		st = (unsigned char*)malloc(bashHash_keep());
 		bashHashStart(st, l); bashHashStepH(data, ld, st);
 		if (!mode) bashHashStepG(out, l / 4, st), outlen = l / 4; else r = bashHashStepV(tag, len, st);
